@@ -76,7 +76,7 @@ def c02(tier, seed):
     # the balance obligations assume that (Vout, Iin) follow the kind's laws: those laws are discharged here as prerequisites
     comp_layer(run, "C02", ("outp", "inp", "pwr"), (1, 2), seed, tier, also=("LAW",))
     from . import system_layer as SL
-    SL.solve_slice(run, "C02")
+    SL.solve_slice(run, "C02"); SL.graph_helpers(run, "TABLE")
     lean_layer(run, ["power_balance"])
     table_layer(run, "solve-table-oracle", ["C02"], seed, _n(tier, 500, 20000), solve_kw=dict(ta=40.0, energy=False))
     table_layer(run, "solve-table-oracle/ta+phases", ["C02"], seed + 1, _n(tier, 300, 10000), dict(p_phases=0.9), solve_kw=dict(ta=-10.0))
@@ -88,7 +88,7 @@ def c04(tier, seed):
     run = Run("C04", tier, seed, "other", "bin/check C04 --tier " + tier)
     comp_layer(run, "C04", ("outp", "inp", "pwr"), (1, 2), seed, tier)
     from . import system_layer as SL
-    SL.init_state(run)
+    SL.init_state(run); SL.graph_helpers(run, "TABLE"); SL.propagation(run)
     table_layer(run, "dead-rail-oracle", ["C04"], seed, _n(tier, 600, 20000), dict(p_dead_source=0.35, p_phases=0.7, p_mux=0.4))
     run.notes.append("composition by depth (paper lemma): parent outputs 0 V => child is dead => outputs 0 V and draws 0 A")
     return run.finish()
@@ -100,7 +100,8 @@ def c03(tier, seed):
     from . import system_layer as SL
     SL.solve_loop(run)
     SL.solve_slice(run, "C03")
-    comp_layer(run, "C03", ("outp", "inp"), (1, 2), seed, tier)
+    comp_layer(run, "C03", ("outp", "inp"), (1, 2), seed, tier, also=("LAW",))     # 'converged steady state': the laws themselves; 'else ValueError (unstable)': their raise conditions
+    SL.graph_helpers(run, "TABLE")
     from bounded import families as BF
     run.add_bounded("overload+tolerance-grid", BF.convergence_family(seed, _n(tier, 300, 6000)))
     table_layer(run, "modest-drop systems converge with default settings", ["C03"], seed, _n(tier, 400, 20000), dict(p_table=0.3))
@@ -114,9 +115,11 @@ def c05(tier, seed):
     from . import system_layer as SL
     SL.pri_inp(run)
     comp_layer(run, "C05", ("outp", "inp"), (1, 2, 3, 4), seed, tier, kinds=["PMux"])
-    SL.child_curr(run); SL.solve_slice(run, "C05"); SL.find_domain(run)
+    SL.child_curr(run); SL.solve_slice(run, "C05"); SL.find_domain(run); SL.graph_helpers(run, "TABLE")
     from bounded import families as BF
     run.add_bounded("mux live/dead patterns (exhaustive patterns x parameter sets)", BF.mux_family(seed, tier))
+    from bounded import hist
+    run.add_bounded("every single edit / configuration call from the base systems, then the table oracle", hist.single_call_family(["C05"]))
     table_layer(run, "solve-table-oracle/mux", ["C05"], seed, _n(tier, 400, 20000), dict(p_mux=1.0, n_sources=(1, 3), p_dead_source=0.3, p_phases=0.5))
     return run.finish()
 
@@ -126,9 +129,11 @@ def c06(tier, seed):
     run = Run("C06", tier, seed, "other", "bin/check C06 --tier " + tier)
     from . import system_layer as SL
     comp_layer(run, "C06", ("outp", "inp", "pwr"), (1, 2), seed, tier)
-    SL.phase_lkup(run); SL.propagation(run); SL.solve_slice(run, "C06"); SL.registry(run, "C06")
+    SL.phase_lkup(run); SL.propagation(run); SL.solve_slice(run, "C06"); SL.registry(run, "C06"); SL.graph_helpers(run, "TABLE")
     from bounded import families as BF
     run.add_bounded("phase equivalences (solve(phase=p) == rows of p; unknown phase; no-config == phase-less)", BF.phase_family(seed, _n(tier, 150, 4000)))
+    from bounded import hist
+    run.add_bounded("every single edit / configuration call from the base systems, then the table oracle", hist.single_call_family(["C06"]))
     table_layer(run, "solve-table-oracle/phases", ["C06"], seed, _n(tier, 400, 20000), dict(p_phases=1.0))
     run.notes.append("'per-phase solves are independent' is a paper argument (each phase runs _solve from _sys_init)")
     return run.finish()
@@ -138,11 +143,12 @@ def c06(tier, seed):
 def c07(tier, seed):
     run = Run("C07", tier, seed, "other", "bin/check C07 --tier " + tier)
     from . import system_layer as SL
-    SL.calc_energy(run); SL.find_domain(run); SL.solve_slice(run, "C07")
+    SL.calc_energy(run); SL.find_domain(run); SL.solve_slice(run, "C07"); SL.graph_helpers(run, "TABLE")
     lean_layer(run, ["energy_additive"])
     table_layer(run, "aggregate-rows oracle", ["C07"], seed, _n(tier, 500, 20000), dict(n_sources=(1, 3), p_mux=0.5, p_phases=0.6, p_dead_source=0.2))
     from bounded import families as BF
     run.add_bounded("construction orders of the same structure", BF.order_family(seed, _n(tier, 60, 2000), ["C07"]))
+    run.add_bounded("re-timed phases (solve, set_sys_phases with other durations, solve) vs fresh system", BF.retime_family(seed, _n(tier, 60, 1500)))
     run.notes.append("the pandas aggregation code of solve() is outside P reach: Subsystem/total/average rows are decided bounded")
     return run.finish()
 
@@ -151,7 +157,7 @@ def c07(tier, seed):
 def c09(tier, seed):
     run = Run("C09", tier, seed, "other", "bin/check C09 --tier " + tier)
     from . import system_layer as SL
-    SL.warnings(run); SL.solve_slice(run, "C09")
+    SL.warnings(run); SL.solve_slice(run, "C09"); SL.graph_helpers(run, "TABLE")
     table_layer(run, "warnings oracle", ["C09"], seed, _n(tier, 500, 20000), dict(p_limits=0.9, p_phases=0.5, n_sources=(1, 2), p_mux=0.3, p_neg=0.4))
     from bounded import families as BF
     run.add_bounded("limit boundaries and key subsets", BF.warn_boundary_family(seed, _n(tier, 200, 5000)))
@@ -199,7 +205,7 @@ def c16(tier, seed):
 def c08(tier, seed):
     run = Run("C08", tier, seed, "other", "bin/check C08 --tier " + tier)
     from . import system_layer as SL
-    SL.solve_slice(run, "C08"); SL.pri_inp(run)
+    SL.solve_slice(run, "C08"); SL.pri_inp(run); SL.graph_helpers(run, "TABLE")
     from bounded import families as BF
     run.add_bounded("rail report oracle", BF.rail_family(seed, _n(tier, 500, 20000)))
     run.notes.append("rail_rep() is pure pandas code: its statement is decided bounded; P covers the Rail in / Rail out labelling of the solve() rows it sums over")
